@@ -21,6 +21,8 @@ def datable_ts(rng, historical=None, internal=False, big=False, ploidy=1):
         if rng.random() < 0.25:
             ts = gen.extra_flags(rng, ts)   # flag bits beyond NODE_IS_SAMPLE
         if rng.random() < 0.25:
+            ts = gen.add_root_mutations(rng, ts)  # mutations above a local root (on no edge)
+        if rng.random() < 0.25:
             ts = gen.permute_nodes(rng, ts)  # samples need not be nodes 0..n-1
         return ts
     raise RuntimeError("no datable input generated")
